@@ -171,7 +171,7 @@ def gen_layers(rng, n, with_unit=True, p_fault=0.25, allow_notimpl=True):
             odd = [n for n in ODD_LAYER_NAMES if n not in [l["name"] for l in layers]]
             if odd:
                 names[i] = rng.choice(odd)
-        lay = {"kind": kind, "name": names[i], "module": rng.choice(["wlayers", "wlayers", "wl2"]), "bases": bases,
+        lay = {"kind": kind, "name": names[i], "module": rng.choice(["wlayers", "wlayers", "wl2", "zzl"]), "bases": bases,
                "setUp": rng.random() < 0.85, "tearDown": rng.random() < 0.8,
                "testSetUp": rng.random() < 0.6, "testTearDown": rng.random() < 0.6,
                "setUpRaises": [], "tearDownFaults": []}
